@@ -457,8 +457,8 @@ OpCall(t) ==
             \* spawnChildLocal: the parent must be running; a running child of that name is returned (tree.node)
             /\ IF ~Run(ParPid(o.n)) \/ (node[o.n].reg /\ Run(node[o.n].pid)) THEN Done(t) ELSE Goto(t, "sf")
             /\ UNCHANGED <<treev, lifev, dwv, tl, stv, fl, sysst, histv>>
-       [] o.op \in {"stop", "actorof"} ->       \* Kill / ActorOf: up to tree.nodeByName
-            /\ Goto(t, IF o.op = "stop" THEN "klookup" ELSE "aodo")
+       [] o.op \in {"stop", "actorof"} ->       \* Kill / ActorOf: up to tree.nodeByName (ErrActorSystemNotStarted once Stop has returned)
+            /\ IF sysst = "dead" THEN Done(t) ELSE Goto(t, IF o.op = "stop" THEN "klookup" ELSE "aodo")
             /\ UNCHANGED <<treev, lifev, dwv, tl, stv, fl, sysst, histv>>
        [] o.op = "pill" ->                       \* Tell(pid, PoisonPill): the actor's own worker will run Shutdown
             /\ IF Run(<<o.n, 1>>) /\ spc[<<"w", o.n>>] = "idle"
